@@ -4,4 +4,831 @@ import TinyHttpModel.Lemmas.BodyRead
 import TinyHttpModel.Lemmas.Loop
 import TinyHttpModel.Lemmas.LoopA
 namespace TH
+
+/-! ### size line scanners: extension and length -/
+
+theorem takeSizeField_ext : ∀ (bs x f r : Bytes) (e : Bool),
+    takeSizeField bs = some (f, e, r) → takeSizeField (bs ++ x) = some (f, e, r ++ x) := by
+  intro bs
+  induction bs with
+  | nil => intro x f r e h; simp [takeSizeField] at h
+  | cons b rest ih =>
+    intro x f r e h
+    simp only [List.cons_append, takeSizeField] at h ⊢
+    by_cases h13 : b = 13
+    · simp only [h13, if_true] at h ⊢
+      simp only [Option.some.injEq, Prod.mk.injEq] at h
+      obtain ⟨rfl, rfl, rfl⟩ := h; rfl
+    · simp only [h13, if_false] at h ⊢
+      by_cases h59 : b = 59
+      · simp only [h59, if_true] at h ⊢
+        simp only [Option.some.injEq, Prod.mk.injEq] at h
+        obtain ⟨rfl, rfl, rfl⟩ := h; rfl
+      · simp only [h59, if_false] at h ⊢
+        cases hrec : takeSizeField rest with
+        | none => simp [hrec] at h
+        | some p =>
+          obtain ⟨f', e', r'⟩ := p
+          rw [hrec] at h
+          simp only [Option.some.injEq, Prod.mk.injEq] at h
+          obtain ⟨rfl, rfl, rfl⟩ := h
+          rw [ih x f' r' e' hrec]
+
+theorem takeSizeField_len : ∀ (bs f r : Bytes) (e : Bool),
+    takeSizeField bs = some (f, e, r) → r.length < bs.length := by
+  intro bs
+  induction bs with
+  | nil => intro f r e h; simp [takeSizeField] at h
+  | cons b rest ih =>
+    intro f r e h
+    simp only [takeSizeField] at h
+    by_cases h13 : b = 13
+    · simp only [h13, if_true, Option.some.injEq, Prod.mk.injEq] at h
+      obtain ⟨_, _, rfl⟩ := h; simp
+    · simp only [h13, if_false] at h
+      by_cases h59 : b = 59
+      · simp only [h59, if_true, Option.some.injEq, Prod.mk.injEq] at h
+        obtain ⟨_, _, rfl⟩ := h; simp
+      · simp only [h59, if_false] at h
+        cases hrec : takeSizeField rest with
+        | none => simp [hrec] at h
+        | some p =>
+          obtain ⟨f', e', r'⟩ := p
+          rw [hrec] at h
+          simp only [Option.some.injEq, Prod.mk.injEq] at h
+          obtain ⟨_, _, rfl⟩ := h
+          have := ih f' r' e' hrec
+          simp; omega
+
+theorem skipToCR_ext : ∀ (bs x r : Bytes), skipToCR bs = some r → skipToCR (bs ++ x) = some (r ++ x) := by
+  intro bs
+  induction bs with
+  | nil => intro x r h; simp [skipToCR] at h
+  | cons b rest ih =>
+    intro x r h
+    simp only [List.cons_append, skipToCR] at h ⊢
+    by_cases h13 : b = 13
+    · simp only [h13, if_true, Option.some.injEq] at h ⊢
+      rw [h]
+    · simp only [h13, if_false] at h ⊢
+      exact ih x r h
+
+theorem skipToCR_len : ∀ (bs r : Bytes), skipToCR bs = some r → r.length < bs.length := by
+  intro bs
+  induction bs with
+  | nil => intro r h; simp [skipToCR] at h
+  | cons b rest ih =>
+    intro r h
+    simp only [skipToCR] at h
+    by_cases h13 : b = 13
+    · simp only [h13, if_true, Option.some.injEq] at h
+      subst h; simp
+    · simp only [h13, if_false] at h
+      have := ih r h
+      simp; omega
+
+/-- the size-line reader on a stream that ended, against the same stream continued by `x`:
+    the same result with the continuation appended to the remainder, or the reader ran out of
+    bytes (`.bad []`). -/
+theorem readChunkSize_eof_cases (bs x : Bytes) :
+    (∃ n r, readChunkSize bs .eof = .ok n r ∧ readChunkSize (bs ++ x) .eof = .ok n (r ++ x) ∧ r.length < bs.length) ∨
+    (∃ r, readChunkSize bs .eof = .bad r ∧ readChunkSize (bs ++ x) .eof = .bad (r ++ x) ∧ r.length < bs.length) ∨
+    readChunkSize bs .eof = .bad [] := by
+  have hb : (EndState.eof == EndState.open) = false := rfl
+  cases hts : takeSizeField bs with
+  | none => right; right; simp [readChunkSize, hts]
+  | some p =>
+    obtain ⟨f, ext, r1⟩ := p
+    have hts' := takeSizeField_ext bs x f r1 ext hts
+    have hl1 := takeSizeField_len bs f r1 ext hts
+    -- the position after the CR
+    have key : ∀ (r2 : Bytes), r2.length < bs.length →
+        (if ext then skipToCR r1 else some r1) = some r2 →
+        (if ext then skipToCR (r1 ++ x) else some (r1 ++ x)) = some (r2 ++ x) →
+        ((∃ n r, readChunkSize bs .eof = .ok n r ∧ readChunkSize (bs ++ x) .eof = .ok n (r ++ x) ∧ r.length < bs.length) ∨
+        (∃ r, readChunkSize bs .eof = .bad r ∧ readChunkSize (bs ++ x) .eof = .bad (r ++ x) ∧ r.length < bs.length) ∨
+        readChunkSize bs .eof = .bad []) := by
+      intro r2 hl2 h1 h2
+      cases r2 with
+      | nil => right; right; simp only [readChunkSize, hts, h1, hb]; rfl
+      | cons b r3 =>
+        have hl3 : r3.length < bs.length := by simp at hl2; omega
+        by_cases hb10 : b = 10
+        · subst hb10
+          cases hn : (if isUtf8Ascii f then usizeFromHex (trim f) else none) with
+          | none =>
+            right; left
+            refine ⟨r3, ?_, ?_, hl3⟩
+            · simp only [readChunkSize, hts, h1, hn]; rfl
+            · simp only [readChunkSize, hts', h2, List.cons_append, hn]; rfl
+          | some n =>
+            left
+            refine ⟨n, r3, ?_, ?_, hl3⟩
+            · simp only [readChunkSize, hts, h1, hn]; rfl
+            · simp only [readChunkSize, hts', h2, List.cons_append, hn]; rfl
+        · right; left
+          have hne : (b != 10) = true := by simp [hb10]
+          refine ⟨r3, ?_, ?_, hl3⟩
+          · simp only [readChunkSize, hts, h1, hne]; rfl
+          · simp only [readChunkSize, hts', h2, List.cons_append, hne]; rfl
+    cases ext with
+    | false => exact key r1 hl1 (by simp) (by simp)
+    | true =>
+      cases hsk : skipToCR r1 with
+      | none => right; right; simp only [readChunkSize, hts, hsk, hb]; rfl
+      | some r2 =>
+        have := skipToCR_len r1 r2 hsk
+        exact key r2 (by omega) (by simp [hsk]) (by simp [skipToCR_ext r1 x r2 hsk])
+
+/-! ### `expectCRLF` -/
+
+theorem expectCRLF_eof_cases (r x : Bytes) :
+    (∃ r', expectCRLF r .eof = some (.ok r') ∧ expectCRLF (r ++ x) .eof = some (.ok (r' ++ x)) ∧ r'.length < r.length) ∨
+    (expectCRLF r .eof = none ∧ r.length ≤ 1) ∨
+    (expectCRLF r .eof = none ∧ expectCRLF (r ++ x) .eof = none) := by
+  match r with
+  | [] => right; left; exact ⟨rfl, by simp⟩
+  | [a] =>
+    right; left
+    refine ⟨?_, by simp⟩
+    by_cases h : a = 13
+    · subst h; rfl
+    · unfold expectCRLF; split <;> simp_all
+  | a :: b :: r' =>
+    by_cases h : a = 13 ∧ b = 10
+    · obtain ⟨rfl, rfl⟩ := h
+      left; exact ⟨r', rfl, rfl, by simp; omega⟩
+    · right; right
+      constructor
+      · unfold expectCRLF; split <;> simp_all
+      · simp only [List.cons_append]
+        unfold expectCRLF; split <;> simp_all
+
+/-! ### one `read` on a chunked body, inside a chunk -/
+
+theorem read_chunked_some_ne (c want : Nat) (r : Bytes) (fin : EndState) (hr : r ≠ []) :
+    Body.read (.chunked (some c)) want r fin =
+      if want < c then
+        (.data (r.take (min want r.length)), .chunked (some (c - min want r.length)), r.drop (min want r.length))
+      else if min c r.length = c then
+        match expectCRLF (r.drop (min c r.length)) fin with
+        | some (.ok r'') => (.data (r.take (min c r.length)), .chunked none, r'')
+        | some (.error _) => (.pending, .chunked (some 0), r.drop (min c r.length))
+        | none => (.err, .failed, r.drop (min c r.length))
+      else (.data (r.take (min c r.length)), .chunked (some (c - min c r.length)), r.drop (min c r.length)) := by
+  cases r with
+  | nil => contradiction
+  | cons a as => rfl
+
+/-- the simulation statement for one stream-touching step returning a triple. -/
+def Sim3 {α β : Type} (x : Bytes) (p1 p2 : α × β × Bytes) : Prop :=
+  p2 = (p1.1, p1.2.1, p1.2.2 ++ x) ∨ p1.2.2.length ≤ 1
+
+theorem read_chunked_some_sim (c want : Nat) (r x : Bytes) :
+    Sim3 x (Body.read (.chunked (some c)) want r .eof) (Body.read (.chunked (some c)) want (r ++ x) .eof) := by
+  by_cases hr : r = []
+  · subst hr; right; simp [Body.read, EndState.stop]
+  · have hrx : r ++ x ≠ [] := by simp [hr]
+    rw [read_chunked_some_ne c want r .eof hr, read_chunked_some_ne c want (r ++ x) .eof hrx]
+    by_cases hw : want < c
+    · simp only [hw, if_true]
+      by_cases hl : want ≤ r.length
+      · left
+        have h1 : min want r.length = want := by omega
+        have h2 : min want (r ++ x).length = want := by simp; omega
+        rw [h1, h2, List.take_append_of_le_length hl, List.drop_append_of_le_length hl]
+      · right; simp; omega
+    · simp only [hw, if_false]
+      by_cases hl : c ≤ r.length
+      · have h1 : min c r.length = c := by omega
+        have h2 : min c (r ++ x).length = c := by simp; omega
+        rw [h1, h2, List.take_append_of_le_length hl, List.drop_append_of_le_length hl]
+        simp only [if_true]
+        rcases expectCRLF_eof_cases (r.drop c) x with ⟨r', e1, e2, _⟩ | ⟨e1, hs⟩ | ⟨e1, e2⟩
+        · left; rw [e1, e2]
+        · right; rw [e1]; exact hs
+        · left; rw [e1, e2]
+      · right
+        have h1 : min c r.length = r.length := by omega
+        have h3 : ¬ (r.length = c) := by omega
+        rw [h1]; simp only [h3, if_false]; simp
+
+/-- a read inside a chunk never lengthens the stream, and a read that returns data shortens it. -/
+theorem read_chunked_some_len (c want : Nat) (r : Bytes) :
+    (Body.read (.chunked (some c)) want r .eof).2.2.length ≤ r.length ∧
+    (1 ≤ want → ∀ d, (Body.read (.chunked (some c)) want r .eof).1 = .data d →
+      (Body.read (.chunked (some c)) want r .eof).2.2.length < r.length) := by
+  by_cases hr : r = []
+  · subst hr; simp [Body.read, EndState.stop]
+  · have hpos : 0 < r.length := List.length_pos_iff.mpr hr
+    rw [read_chunked_some_ne c want r .eof hr]
+    by_cases hw : want < c
+    · simp only [hw, if_true, List.length_drop]
+      exact ⟨by omega, fun h1 _ _ => by omega⟩
+    · simp only [hw, if_false]
+      by_cases hl : c ≤ r.length
+      · have h1 : min c r.length = c := by omega
+        rw [h1]; simp only [if_true]
+        rcases expectCRLF_eof_cases (r.drop c) [] with ⟨r', e1, _, hlt⟩ | ⟨e1, _⟩ | ⟨e1, _⟩
+        · rw [e1]; simp only [List.length_drop] at hlt ⊢
+          exact ⟨by omega, fun _ _ _ => by omega⟩
+        · rw [e1]; simp
+        · rw [e1]; simp
+      · have h1 : min c r.length = r.length := by omega
+        have h3 : ¬ (r.length = c) := by omega
+        rw [h1]; simp only [h3, if_false]; simp
+        exact fun _ => hpos
+
+/-! ### one `read` on a chunked body, at a size line -/
+
+theorem read_chunked_none_bad (want : Nat) (bs r : Bytes) (fin : EndState) (h : readChunkSize bs fin = .bad r) :
+    Body.read (.chunked none) want bs fin = (.err, .failed, r) := by
+  unfold Body.read; simp only [h]
+
+theorem read_chunked_none_zero (want : Nat) (bs r : Bytes) (fin : EndState) (h : readChunkSize bs fin = .ok 0 r) :
+    Body.read (.chunked none) want bs fin =
+      match expectCRLF r fin with
+      | some (.ok r') => (.eof, .done, r')
+      | some (.error _) => (.pending, .chunked none, bs)
+      | none => (.err, .failed, r) := by
+  unfold Body.read; simp only [h]
+  cases expectCRLF r fin with
+  | none => rfl
+  | some q => cases q <;> rfl
+
+theorem read_chunked_none_sim (want : Nat) (r x : Bytes) :
+    Sim3 x (Body.read (.chunked none) want r .eof) (Body.read (.chunked none) want (r ++ x) .eof) := by
+  rcases readChunkSize_eof_cases r x with ⟨n, r', h1, h2, _⟩ | ⟨r', h1, h2, _⟩ | h1
+  · by_cases hn : n = 0
+    · subst hn
+      rw [read_chunked_none_zero want r r' .eof h1, read_chunked_none_zero want (r ++ x) (r' ++ x) .eof h2]
+      rcases expectCRLF_eof_cases r' x with ⟨r'', e1, e2, _⟩ | ⟨e1, hs⟩ | ⟨e1, e2⟩
+      · left; rw [e1, e2]
+      · right; rw [e1]; exact hs
+      · left; rw [e1, e2]
+    · rw [read_chunked_none_ok want r r' n .eof h1 hn, read_chunked_none_ok want (r ++ x) (r' ++ x) n .eof h2 hn]
+      exact read_chunked_some_sim n want r' x
+  · left; rw [read_chunked_none_bad want r r' .eof h1, read_chunked_none_bad want (r ++ x) (r' ++ x) .eof h2]
+  · right; rw [read_chunked_none_bad want r [] .eof h1]; simp
+
+theorem read_chunked_none_len (want : Nat) (r : Bytes) :
+    (Body.read (.chunked none) want r .eof).2.2.length ≤ r.length ∧
+    (1 ≤ want → ∀ d, (Body.read (.chunked none) want r .eof).1 = .data d →
+      (Body.read (.chunked none) want r .eof).2.2.length < r.length) := by
+  rcases readChunkSize_eof_cases r [] with ⟨n, r', h1, _, hl⟩ | ⟨r', h1, _, hl⟩ | h1
+  · by_cases hn : n = 0
+    · subst hn
+      rw [read_chunked_none_zero want r r' .eof h1]
+      rcases expectCRLF_eof_cases r' [] with ⟨r'', e1, _, hlt⟩ | ⟨e1, _⟩ | ⟨e1, _⟩
+      · rw [e1]; simp; omega
+      · rw [e1]; simp; omega
+      · rw [e1]; simp; omega
+    · rw [read_chunked_none_ok want r r' n .eof h1 hn]
+      have := read_chunked_some_len n want r'
+      exact ⟨by omega, fun hw d hd => by have := this.2 hw d hd; omega⟩
+  · rw [read_chunked_none_bad want r r' .eof h1]; simp; omega
+  · rw [read_chunked_none_bad want r [] .eof h1]; simp
+
+/-! ### one `read` on any body -/
+
+theorem Body.read_sim (b : Body) (want : Nat) (r x : Bytes) :
+    Sim3 x (b.read want r .eof) (b.read want (r ++ x) .eof) := by
+  cases b with
+  | done => left; rfl
+  | failed => left; rfl
+  | cursor d => left; simp only [Body.read]; split <;> rfl
+  | raw =>
+    by_cases hr : r = []
+    · subst hr; right; simp [Body.read, EndState.stop]
+    · have hrx : r ++ x ≠ [] := by simp [hr]
+      have e1 : ∀ (l : Bytes), l ≠ [] → Body.read .raw want l .eof = (.data (l.take want), .raw, l.drop want) := by
+        intro l hl; cases l with
+        | nil => contradiction
+        | cons a as => rfl
+      rw [e1 r hr, e1 _ hrx]
+      by_cases hl : want ≤ r.length
+      · left; rw [List.take_append_of_le_length hl, List.drop_append_of_le_length hl]
+      · right; simp; omega
+  | limited rem =>
+    by_cases h0 : rem = 0
+    · left; simp [Body.read, h0]
+    · by_cases hr : r = []
+      · subst hr; right; simp [Body.read, h0, EndState.stop]
+      · have hrx : r ++ x ≠ [] := by simp [hr]
+        have e1 : ∀ (l : Bytes), l ≠ [] → Body.read (.limited rem) want l .eof =
+            (.data (l.take (min (min want rem) l.length)), .limited (rem - min (min want rem) l.length),
+              l.drop (min (min want rem) l.length)) := by
+          intro l hl; cases l with
+          | nil => contradiction
+          | cons a as => simp only [Body.read, h0, if_false]
+        rw [e1 r hr, e1 _ hrx]
+        by_cases hl : min want rem ≤ r.length
+        · left
+          have h1 : min (min want rem) r.length = min want rem := by omega
+          have h2 : min (min want rem) (r ++ x).length = min want rem := by simp; omega
+          rw [h1, h2, List.take_append_of_le_length hl, List.drop_append_of_le_length hl]
+        · right; simp; omega
+  | chunked ic =>
+    cases ic with
+    | none => exact read_chunked_none_sim want r x
+    | some c => exact read_chunked_some_sim c want r x
+
+theorem Body.read_len (b : Body) (want : Nat) (r : Bytes) : (b.read want r .eof).2.2.length ≤ r.length := by
+  cases b with
+  | done => simp [Body.read]
+  | failed => simp [Body.read]
+  | cursor d => simp only [Body.read]; split <;> simp
+  | raw => simp only [Body.read]; split <;> simp [EndState.stop]
+  | limited rem =>
+    simp only [Body.read]; split
+    · simp
+    · split <;> simp [EndState.stop]
+  | chunked ic =>
+    cases ic with
+    | none => exact (read_chunked_none_len want r).1
+    | some c => exact (read_chunked_some_len c want r).1
+
+theorem Body.read_chunked_data_lt (ic : Option Nat) (want : Nat) (r : Bytes) (hw : 1 ≤ want) (d : Bytes)
+    (h : (Body.read (.chunked ic) want r .eof).1 = .data d) :
+    (Body.read (.chunked ic) want r .eof).2.2.length < r.length := by
+  cases ic with
+  | none => exact (read_chunked_none_len want r).2 hw d h
+  | some c => exact (read_chunked_some_len c want r).2 hw d h
+
+/-! ### `readUpTo` -/
+
+theorem Body.readUpTo_succ (fuel : Nat) (b : Body) (buf total : Nat) (bs : Bytes) (fin : EndState) :
+    Body.readUpTo (fuel + 1) b buf total bs fin =
+      if total = 0 then ([], none, b, bs)
+      else match (b.read (min buf total) bs fin).1 with
+        | .data d =>
+          if d.isEmpty then ([], none, (b.read (min buf total) bs fin).2.1, (b.read (min buf total) bs fin).2.2)
+          else
+            (d ++ (Body.readUpTo fuel (b.read (min buf total) bs fin).2.1 buf (total - d.length)
+                (b.read (min buf total) bs fin).2.2 fin).1,
+             (Body.readUpTo fuel (b.read (min buf total) bs fin).2.1 buf (total - d.length)
+                (b.read (min buf total) bs fin).2.2 fin).2)
+        | o => ([], some o, (b.read (min buf total) bs fin).2.1, (b.read (min buf total) bs fin).2.2) := by
+  rw [Body.readUpTo]
+  generalize b.read (min buf total) bs fin = R
+  obtain ⟨o, b', bs'⟩ := R
+  cases o <;> rfl
+
+theorem Body.readUpTo_len : ∀ (fuel : Nat) (b : Body) (buf total : Nat) (bs : Bytes),
+    (Body.readUpTo fuel b buf total bs .eof).2.2.2.length ≤ bs.length := by
+  intro fuel
+  induction fuel with
+  | zero => intro b buf total bs; simp [Body.readUpTo]
+  | succ fuel ih =>
+    intro b buf total bs
+    rw [Body.readUpTo_succ]
+    have hl := Body.read_len b (min buf total) bs
+    split
+    · simp
+    · split
+      · split
+        · exact hl
+        · exact Nat.le_trans (ih ..) hl
+      · exact hl
+
+/-- the simulation statement for a step returning a 4-tuple. -/
+def Sim4 {α β γ : Type} (x : Bytes) (p1 p2 : α × β × γ × Bytes) : Prop :=
+  p2 = (p1.1, p1.2.1, p1.2.2.1, p1.2.2.2 ++ x) ∨ p1.2.2.2.length ≤ 1
+
+theorem Body.readUpTo_sim : ∀ (fuel : Nat) (b : Body) (buf total : Nat) (r x : Bytes),
+    Sim4 x (Body.readUpTo fuel b buf total r .eof) (Body.readUpTo fuel b buf total (r ++ x) .eof) := by
+  intro fuel
+  induction fuel with
+  | zero => intro b buf total r x; left; rfl
+  | succ fuel ih =>
+    intro b buf total r x
+    rw [Body.readUpTo_succ, Body.readUpTo_succ]
+    by_cases ht : total = 0
+    · left; simp [ht]
+    · simp only [ht, if_false]
+      rcases Body.read_sim b (min buf total) r x with hs | hs
+      · rw [hs]
+        generalize b.read (min buf total) r .eof = R
+        obtain ⟨o, b', r'⟩ := R
+        cases o with
+        | data d =>
+          simp only
+          by_cases hd : d.isEmpty
+          · left; simp [hd]
+          · simp only [hd]
+            rcases ih b' buf (total - d.length) r' x with h | h
+            · left; rw [h]; rfl
+            · right; exact h
+        | eof => left; rfl
+        | err => left; rfl
+        | pending => left; rfl
+      · right
+        have hl := Body.readUpTo_len fuel (b.read (min buf total) r .eof).2.1 buf
+        split
+        · split
+          · exact hs
+          · exact Nat.le_trans (hl ..) hs
+        · exact hs
+
+/-! ### `drain` -/
+
+theorem Body.drain_chunked_succ (fuel : Nat) (ic : Option Nat) (bs : Bytes) (fin : EndState) :
+    Body.drain (fuel + 1) (.chunked ic) bs fin =
+      match (Body.read (.chunked ic) 4096 bs fin).1 with
+      | .data _ => Body.drain fuel (Body.read (.chunked ic) 4096 bs fin).2.1 (Body.read (.chunked ic) 4096 bs fin).2.2 fin
+      | .pending => none
+      | _ => some (Body.read (.chunked ic) 4096 bs fin).2.2 := by
+  rw [Body.drain]
+  generalize Body.read (.chunked ic) 4096 bs fin = R
+  obtain ⟨o, b', bs'⟩ := R
+  cases o <;> rfl
+
+theorem Body.drain_len : ∀ (fuel : Nat) (b : Body) (bs r : Bytes),
+    Body.drain fuel b bs .eof = some r → r.length ≤ bs.length := by
+  intro fuel
+  induction fuel with
+  | zero => intro b bs r h; simp [Body.drain] at h; subst h; exact Nat.le_refl _
+  | succ fuel ih =>
+    intro b bs r h
+    cases b with
+    | done => simp [Body.drain] at h; subst h; exact Nat.le_refl _
+    | failed => simp [Body.drain] at h; subst h; exact Nat.le_refl _
+    | cursor d => simp [Body.drain] at h; subst h; exact Nat.le_refl _
+    | raw => simp [Body.drain] at h; subst h; exact Nat.le_refl _
+    | limited rem =>
+      simp only [Body.drain] at h
+      split at h
+      · simp at h; subst h; simp
+      · simp at h; subst h; simp
+    | chunked ic =>
+      rw [Body.drain_chunked_succ] at h
+      have hl := Body.read_len (.chunked ic) 4096 bs
+      split at h
+      · exact Nat.le_trans (ih _ _ _ h) hl
+      · simp at h
+      · simp at h; subst h; exact hl
+
+theorem Body.drain_sim : ∀ (f1 f2 : Nat) (b : Body) (r1 x r1' r2' : Bytes),
+    r1.length < f1 → (r1 ++ x).length < f2 →
+    Body.drain f1 b r1 .eof = some r1' → Body.drain f2 b (r1 ++ x) .eof = some r2' →
+    r2' = r1' ++ x ∨ r1'.length ≤ 1 := by
+  intro f1
+  induction f1 with
+  | zero => intro f2 b r1 x r1' r2' h1; omega
+  | succ f1 ih =>
+    intro f2 b r1 x r1' r2' h1 h2 e1 e2
+    cases f2 with
+    | zero => omega
+    | succ f2 =>
+      cases b with
+      | done => simp [Body.drain] at e1 e2; subst e1 e2; left; rfl
+      | failed => simp [Body.drain] at e1 e2; subst e1 e2; left; rfl
+      | cursor d => simp [Body.drain] at e1 e2; subst e1 e2; left; rfl
+      | raw => simp [Body.drain] at e1 e2; subst e1 e2; left; rfl
+      | limited rem =>
+        simp only [Body.drain] at e1 e2
+        by_cases hl : rem ≤ r1.length
+        · have hl2 : rem ≤ (r1 ++ x).length := by simp; omega
+          simp only [hl, hl2, if_true, Option.some.injEq] at e1 e2
+          subst e1 e2; left; exact List.drop_append_of_le_length hl
+        · simp [hl] at e1; subst e1; right; simp
+      | chunked ic =>
+        rw [Body.drain_chunked_succ] at e1 e2
+        have hlen := Body.read_len (.chunked ic) 4096 r1
+        have hlt := Body.read_chunked_data_lt ic 4096 r1 (by omega)
+        have hlt2 := Body.read_chunked_data_lt ic 4096 (r1 ++ x) (by omega)
+        rcases Body.read_sim (.chunked ic) 4096 r1 x with hs | hs
+        · rw [hs] at e2 hlt2
+          generalize Body.read (.chunked ic) 4096 r1 .eof = R at *
+          obtain ⟨o, b', r'⟩ := R
+          cases o with
+          | data d =>
+            simp only at e1 e2 hlt hlt2
+            have := hlt d rfl
+            have := hlt2 d rfl
+            exact ih f2 b' r' x r1' r2' (by omega) (by omega) e1 e2
+          | eof => simp at e1 e2; subst e1 e2; left; rfl
+          | err => simp at e1 e2; subst e1 e2; left; rfl
+          | pending => simp at e1
+        · right
+          split at e1
+          · exact Nat.le_trans (Body.drain_len _ _ _ _ e1) hs
+          · simp at e1
+          · simp at e1; subst e1; exact hs
+
+/-! ### the empty-buffer read -/
+
+theorem zeroReadEffect_len (b b' : Body) (bs r : Bytes) (h : zeroReadEffect b bs .eof = some (b', r)) :
+    r.length ≤ bs.length := by
+  have key : ∀ b0, (match Body.drain (bs.length + 2) b0 bs .eof with
+      | some bs' => some (Body.done, bs')
+      | none => none) = some (b', r) → r.length ≤ bs.length := by
+    intro b0 h
+    split at h
+    · rename_i bs' hd
+      simp at h; obtain ⟨_, rfl⟩ := h
+      exact Body.drain_len _ _ _ _ hd
+    · simp at h
+  cases b with
+  | limited n => exact key _ h
+  | chunked ic => exact key _ h
+  | done => simp [zeroReadEffect] at h; obtain ⟨_, rfl⟩ := h; exact Nat.le_refl _
+  | failed => simp [zeroReadEffect] at h; obtain ⟨_, rfl⟩ := h; exact Nat.le_refl _
+  | cursor d => simp [zeroReadEffect] at h; obtain ⟨_, rfl⟩ := h; exact Nat.le_refl _
+  | raw => simp [zeroReadEffect] at h; obtain ⟨_, rfl⟩ := h; exact Nat.le_refl _
+
+theorem zeroReadEffect_sim (b b1 b2 : Body) (r1 x r1' r2' : Bytes)
+    (e1 : zeroReadEffect b r1 .eof = some (b1, r1')) (e2 : zeroReadEffect b (r1 ++ x) .eof = some (b2, r2')) :
+    (b2 = b1 ∧ r2' = r1' ++ x) ∨ r1'.length ≤ 1 := by
+  have key : ∀ b0, (match Body.drain (r1.length + 2) b0 r1 .eof with
+      | some bs' => some (Body.done, bs')
+      | none => none) = some (b1, r1') →
+      (match Body.drain ((r1 ++ x).length + 2) b0 (r1 ++ x) .eof with
+      | some bs' => some (Body.done, bs')
+      | none => none) = some (b2, r2') → (b2 = b1 ∧ r2' = r1' ++ x) ∨ r1'.length ≤ 1 := by
+    intro b0 e1 e2
+    split at e1
+    · rename_i q1 hd1
+      split at e2
+      · rename_i q2 hd2
+        simp at e1 e2
+        obtain ⟨rfl, rfl⟩ := e1
+        obtain ⟨rfl, rfl⟩ := e2
+        rcases Body.drain_sim _ _ b0 r1 x _ _ (by omega) (by omega) hd1 hd2 with h | h
+        · left; exact ⟨rfl, h⟩
+        · right; exact h
+      · simp at e2
+    · simp at e1
+  cases b with
+  | limited n => exact key _ e1 e2
+  | chunked ic => exact key _ e1 e2
+  | done => simp [zeroReadEffect] at e1 e2; obtain ⟨rfl, rfl⟩ := e1; obtain ⟨rfl, rfl⟩ := e2; left; exact ⟨rfl, rfl⟩
+  | failed => simp [zeroReadEffect] at e1 e2; obtain ⟨rfl, rfl⟩ := e1; obtain ⟨rfl, rfl⟩ := e2; left; exact ⟨rfl, rfl⟩
+  | cursor d => simp [zeroReadEffect] at e1 e2; obtain ⟨rfl, rfl⟩ := e1; obtain ⟨rfl, rfl⟩ := e2; left; exact ⟨rfl, rfl⟩
+  | raw => simp [zeroReadEffect] at e1 e2; obtain ⟨rfl, rfl⟩ := e1; obtain ⟨rfl, rfl⟩ := e2; left; exact ⟨rfl, rfl⟩
+
+/-! ### `handle` -/
+
+theorem handleRead0_len (a : Action) (b : Body) (bs : Bytes) : (handleRead0 a b bs .eof).2.2.2.length ≤ bs.length := by
+  unfold handleRead0
+  split
+  · exact Body.readUpTo_len ..
+  · exact Nat.le_refl _
+
+theorem handleRead0_sim (a : Action) (b : Body) (r x : Bytes) :
+    Sim4 x (handleRead0 a b r .eof) (handleRead0 a b (r ++ x) .eof) := by
+  unfold handleRead0
+  split
+  · exact Body.readUpTo_sim ..
+  · left; rfl
+
+theorem handleRead_sim (a : Action) (body : Body) (r x : Bytes) :
+    Sim4 x (handleRead a body r .eof) (handleRead a body (r ++ x) .eof) := by
+  have hn1 := handleZR_not_none a body r .eof (by decide)
+  have hn2 := handleZR_not_none a body (r ++ x) .eof (by decide)
+  unfold handleRead
+  cases hz1 : handleZR a body r .eof with
+  | none => exact absurd hz1 hn1
+  | some p1 =>
+    cases hz2 : handleZR a body (r ++ x) .eof with
+    | none => exact absurd hz2 hn2
+    | some p2 =>
+      obtain ⟨b1, r1'⟩ := p1
+      obtain ⟨b2, r2'⟩ := p2
+      simp only
+      unfold handleZR at hz1 hz2
+      by_cases hc : (decide (a.asReaderCalls > 0) && a.zeroRead) = true
+      · simp only [hc, if_true] at hz1 hz2
+        rcases zeroReadEffect_sim body b1 b2 r x r1' r2' hz1 hz2 with ⟨rfl, rfl⟩ | hs
+        · exact handleRead0_sim a b2 r1' x
+        · right; exact Nat.le_trans (handleRead0_len a b1 r1') hs
+      · simp only [hc] at hz1 hz2
+        simp at hz1 hz2
+        obtain ⟨rfl, rfl⟩ := hz1
+        obtain ⟨rfl, rfl⟩ := hz2
+        exact handleRead0_sim a body r x
+
+theorem handleRead_not_pending (a : Action) (body : Body) (bs : Bytes) :
+    readEndOf (handleRead a body bs .eof).2.1 ≠ .pending := by
+  have hrd : (handleRead a body bs .eof).2.1 ≠ some .pending := by
+    unfold handleRead
+    split
+    · unfold handleRead0
+      split
+      · exact Body.readUpTo_not_pending _ _ _ _ _ _ (by decide)
+      · simp
+    · rename_i hn; exact absurd hn (handleZR_not_none a body bs .eof (by decide))
+  generalize (handleRead a body bs .eof).2.1 = o at hrd
+  rcases o with _ | (_ | _ | _ | _) <;> simp_all [readEndOf]
+
+/-- the stream after `handle`, on a stream that ended. -/
+theorem handle_rem (s : St) (h : Head) (fr : Framing) (last : Bool) (a : Action) (body : Body) (bs : Bytes) :
+    Body.drain ((handleRead a body bs .eof).2.2.2.length + 2) (handleRead a body bs .eof).2.2.1
+      (handleRead a body bs .eof).2.2.2 .eof = some (handle s h fr last a body bs .eof).2.1 := by
+  rw [handle_eq]
+  simp only [if_neg (handleRead_not_pending a body bs)]
+  have hd := Body.drain_not_none ((handleRead a body bs .eof).2.2.2.length + 2) (handleRead a body bs .eof).2.2.1
+    (handleRead a body bs .eof).2.2.2 .eof (by decide)
+  split
+  · rename_i q hq; rw [hq]
+  · rename_i hn; exact absurd hn hd
+
+/-- `handle` on a stream that ended against `handle` on the same stream continued by `x`: the
+    remainders differ by `x`, or the truncated one ran into the end (at most one byte is left). -/
+theorem handle_rem_sim (s1 s2 : St) (h : Head) (fr : Framing) (last : Bool) (a : Action) (body : Body) (r x : Bytes) :
+    (handle s2 h fr last a body (r ++ x) .eof).2.1 = (handle s1 h fr last a body r .eof).2.1 ++ x ∨
+      (handle s1 h fr last a body r .eof).2.1.length ≤ 1 := by
+  have e1 := handle_rem s1 h fr last a body r
+  have e2 := handle_rem s2 h fr last a body (r ++ x)
+  rcases handleRead_sim a body r x with hs | hs
+  · rw [hs] at e2
+    simp only at e2
+    exact Body.drain_sim _ _ _ _ _ _ _ (by omega) (by omega) e1 e2
+  · right
+    exact Nat.le_trans (Body.drain_len _ _ _ _ e1) hs
+
+/-- what the application learns about a delivered request's head. -/
+def Delivered.headKey (d : Delivered) : Method × Bytes × Version × List Header × Option Nat :=
+  (d.method, d.url, d.version, d.headers, d.bodyLength)
+
+theorem handle_key (s1 s2 : St) (h : Head) (fr : Framing) (last : Bool) (a : Action) (b1 b2 : Body)
+    (r1 r2 : Bytes) (f1 f2 : EndState)
+    (hs : s1.delivered.map Delivered.headKey = s2.delivered.map Delivered.headKey) :
+    (handle s1 h fr last a b1 r1 f1).1.delivered.map Delivered.headKey =
+      (handle s2 h fr last a b2 r2 f2).1.delivered.map Delivered.headKey := by
+  obtain ⟨_, d1, _, hd1, m1, u1, v1, hh1, l1⟩ := handle_spec s1 h fr last a b1 r1 f1
+  obtain ⟨_, d2, _, hd2, m2, u2, v2, hh2, l2⟩ := handle_spec s2 h fr last a b2 r2 f2
+  rw [hd1, hd2, List.map_append, List.map_append, hs]
+  simp only [List.map_cons, List.map_nil, Delivered.headKey, m1, u1, v1, hh1, l1, m2, u2, v2, hh2, l2]
+
+/-! ### the loop -/
+
+theorem runLoop_head_error (fuel idx : Nat) (s : St) (bs : Bytes) (fin : EndState) (script : Script) (e : HeadErr)
+    (h : readHead bs fin = .error e) : (runLoop fuel idx s bs fin script).delivered = s.delivered := by
+  cases fuel with
+  | zero => rfl
+  | succ fuel =>
+    simp only [runLoop, h]
+    cases e with
+    | wrongRequestLine => rfl
+    | wrongHeader v => rfl
+    | notAscii => rfl
+    | stop st => cases st <;> rfl
+
+/-- at most one byte left: no head can be read. -/
+theorem runLoop_short (fuel idx : Nat) (s : St) (bs : Bytes) (fin : EndState) (script : Script)
+    (h : bs.length ≤ 1) : (runLoop fuel idx s bs fin script).delivered = s.delivered := by
+  cases hr : readHead bs fin with
+  | error e => exact runLoop_head_error fuel idx s bs fin script e hr
+  | ok p =>
+    obtain ⟨hd, rest⟩ := p
+    obtain ⟨pre, hpre⟩ := readHead_ok_split bs fin hd rest hr
+    rw [hpre] at h; simp at h; omega
+
+theorem runLoop_framing_error (fuel idx : Nat) (s : St) (bs : Bytes) (fin : EndState) (script : Script)
+    (h : Head) (rest : Bytes) (e : CreateErr)
+    (hh : readHead bs fin = .ok (h, rest)) (hf : framingOf h.headers = .error e) :
+    (runLoop fuel idx s bs fin script).delivered = s.delivered := by
+  cases fuel with
+  | zero => rfl
+  | succ fuel =>
+    simp only [runLoop, hh, hf]
+    cases e <;> rfl
+
+theorem runLoop_short_body (fuel idx : Nat) (s : St) (bs : Bytes) (fin : EndState) (script : Script)
+    (h : Head) (rest : Bytes) (fr : Framing) (n : Nat)
+    (hh : readHead bs fin = .ok (h, rest)) (hf : framingOf h.headers = .ok fr)
+    (hk : fr.kind = .buffered n) (hs : rest.length < n) :
+    (runLoop fuel idx s bs fin script).delivered = s.delivered := by
+  cases fuel with
+  | zero => rfl
+  | succ fuel =>
+    have hd : decide (rest.length < n) = true := by simpa using hs
+    simp only [runLoop, hh, hf, hk, hd]
+    cases fin <;> rfl
+
+/-- one iteration of the loop on a well-framed request of an unsupported version. -/
+theorem runLoop_505 (fuel idx : Nat) (s : St) (bs : Bytes) (fin : EndState) (script : Script)
+    (h : Head) (rest : Bytes) (fr : Framing)
+    (hh : readHead bs fin = .ok (h, rest))
+    (hf : framingOf h.headers = .ok fr)
+    (hshort : ∀ n, fr.kind = .buffered n → n ≤ rest.length)
+    (hver : (⟨Extracted.maxVersion.1, Extracted.maxVersion.2⟩ : Version).lt h.version = true) :
+    runLoop (fuel + 1) idx s bs fin script =
+      match Body.drain ((initialBody fr.kind rest).2.length + 2) (initialBody fr.kind rest).1
+          (initialBody fr.kind rest).2 fin with
+      | some rest2 => runLoop fuel idx (s.emit 505 (some print505) true) rest2 fin script
+      | none => (s.emit 505 (some print505) true).finish .waiting := by
+  simp only [runLoop, hh, hf, hver]
+  cases hk : fr.kind with
+  | buffered n =>
+    have := hshort n hk
+    have hd : decide (rest.length < n) = false := by simp; omega
+    simp only [hd]; rfl
+  | _ => rfl
+
+theorem initialBody_ext (k : BodyKind) (rest x : Bytes) (hshort : ∀ n, k = .buffered n → n ≤ rest.length) :
+    initialBody k (rest ++ x) = ((initialBody k rest).1, (initialBody k rest).2 ++ x) := by
+  cases k with
+  | buffered n =>
+    have hl := hshort n rfl
+    simp only [initialBody, List.take_append_of_le_length hl, List.drop_append_of_le_length hl]
+  | _ => rfl
+
+theorem prefix_of_stop (f2 idx : Nat) (s1 s2 : St) (bs : Bytes) (script : Script) (l : List Delivered)
+    (hl : l = s1.delivered)
+    (hs : s1.delivered.map Delivered.headKey = s2.delivered.map Delivered.headKey) :
+    l.map Delivered.headKey <+: (runLoop f2 idx s2 bs .eof script).delivered.map Delivered.headKey := by
+  obtain ⟨⟨ds, hds⟩, _, _⟩ := runLoop_ext f2 idx s2 bs .eof script
+  rw [hl, hds, List.map_append, hs]
+  exact List.prefix_append _ _
+
+/-- the simulation: the run on a stream that ended delivers a prefix (as heads) of what the run on
+    the same stream continued by `x` delivers. -/
+theorem runLoop_prefix (x : Bytes) (script : Script) : ∀ (f1 f2 idx : Nat) (s1 s2 : St) (r : Bytes),
+    f1 ≤ f2 → s1.delivered.map Delivered.headKey = s2.delivered.map Delivered.headKey →
+    (runLoop f1 idx s1 r .eof script).delivered.map Delivered.headKey <+:
+      (runLoop f2 idx s2 (r ++ x) .eof script).delivered.map Delivered.headKey := by
+  intro f1
+  induction f1 with
+  | zero => intro f2 idx s1 s2 r _ hs; exact prefix_of_stop f2 idx s1 s2 _ script _ rfl hs
+  | succ f1 ih =>
+    intro f2 idx s1 s2 r hf hs
+    cases f2 with
+    | zero => omega
+    | succ f2 =>
+      have hf' : f1 ≤ f2 := by omega
+      cases hr : readHead r .eof with
+      | error e => exact prefix_of_stop _ idx s1 s2 _ script _ (runLoop_head_error _ idx s1 r .eof script e hr) hs
+      | ok p =>
+        obtain ⟨h, rest⟩ := p
+        have hr' := readHead_ok_ext r x h rest .eof .eof hr
+        cases hfr : framingOf h.headers with
+        | error e =>
+          exact prefix_of_stop _ idx s1 s2 _ script _ (runLoop_framing_error _ idx s1 r .eof script h rest e hr hfr) hs
+        | ok fr =>
+          by_cases hshort : ∃ n, fr.kind = .buffered n ∧ rest.length < n
+          · obtain ⟨n, hk, hlt⟩ := hshort
+            exact prefix_of_stop _ idx s1 s2 _ script _
+              (runLoop_short_body _ idx s1 r .eof script h rest fr n hr hfr hk hlt) hs
+          · have hns : ∀ n, fr.kind = .buffered n → n ≤ rest.length := by
+              intro n hk
+              by_cases hlt : rest.length < n
+              · exact absurd ⟨n, hk, hlt⟩ hshort
+              · omega
+            have hns' : ∀ n, fr.kind = .buffered n → n ≤ (rest ++ x).length := by
+              intro n hk; have := hns n hk; simp; omega
+            have hib := initialBody_ext fr.kind rest x hns
+            cases hver : (⟨Extracted.maxVersion.1, Extracted.maxVersion.2⟩ : Version).lt h.version with
+            | true =>
+              rw [runLoop_505 f1 idx s1 r .eof script h rest fr hr hfr hns hver,
+                runLoop_505 f2 idx s2 (r ++ x) .eof script h (rest ++ x) fr hr' hfr hns' hver, hib]
+              simp only
+              have hn1 := Body.drain_not_none ((initialBody fr.kind rest).2.length + 2) (initialBody fr.kind rest).1
+                (initialBody fr.kind rest).2 .eof (by decide)
+              have hn2 := Body.drain_not_none (((initialBody fr.kind rest).2 ++ x).length + 2) (initialBody fr.kind rest).1
+                ((initialBody fr.kind rest).2 ++ x) .eof (by decide)
+              cases hd1 : Body.drain ((initialBody fr.kind rest).2.length + 2) (initialBody fr.kind rest).1
+                (initialBody fr.kind rest).2 .eof with
+              | none => exact absurd hd1 hn1
+              | some q1 =>
+                cases hd2 : Body.drain (((initialBody fr.kind rest).2 ++ x).length + 2) (initialBody fr.kind rest).1
+                  ((initialBody fr.kind rest).2 ++ x) .eof with
+                | none => exact absurd hd2 hn2
+                | some q2 =>
+                  simp only
+                  have hs' : (s1.emit 505 (some print505) true).delivered.map Delivered.headKey =
+                      (s2.emit 505 (some print505) true).delivered.map Delivered.headKey := by
+                    simpa using hs
+                  rcases Body.drain_sim _ _ _ _ _ _ _ (by omega) (by omega) hd1 hd2 with hq | hq
+                  · rw [hq]; exact ih f2 idx _ _ q1 hf' hs'
+                  · exact prefix_of_stop _ idx _ _ _ script _ (runLoop_short f1 idx _ q1 .eof script hq) hs'
+            | false =>
+              rw [runLoop_step f1 idx s1 r .eof script h rest fr hr hfr hns hver,
+                runLoop_step f2 idx s2 (r ++ x) .eof script h (rest ++ x) fr hr' hfr hns' hver, hib]
+              simp only [handle_not_blocked _ _ _ _ _ _ _ .eof (by decide), Bool.false_eq_true, if_false]
+              generalize isLastRequest h.version h.headers = last
+              have hk := handle_key s1 s2 h fr last (script idx)
+                (initialBody fr.kind rest).1 (initialBody fr.kind rest).1 (initialBody fr.kind rest).2
+                ((initialBody fr.kind rest).2 ++ x) .eof .eof hs
+              cases last with
+              | true =>
+                simp only [if_true, St.finish_delivered]
+                rw [hk]; exact List.prefix_refl _
+              | false =>
+                simp only [Bool.false_eq_true, if_false]
+                rcases handle_rem_sim s1 s2 h fr false (script idx)
+                  (initialBody fr.kind rest).1 (initialBody fr.kind rest).2 x with hq | hq
+                · rw [hq]; exact ih f2 (idx + 1) _ _ _ hf' hk
+                · exact prefix_of_stop _ (idx + 1) _ _ _ script _ (runLoop_short f1 (idx + 1) _ _ .eof script hq) hk
+
+/-- Prefix delivery, in terms of `Delivered.headKey`. -/
+theorem run_prefix (bs : Bytes) (k : Nat) (script : Script) :
+    ((Conn.run (bs.take k) .eof script).delivered.map Delivered.headKey) <+:
+      ((Conn.run bs .eof script).delivered.map Delivered.headKey) := by
+  have h := runLoop_prefix (bs.drop k) script ((bs.take k).length + 1) (bs.length + 1) 0 {} {} (bs.take k)
+    (by simp; omega) rfl
+  rw [List.take_append_drop] at h
+  exact h
+
 end TH
